@@ -18,13 +18,14 @@ Ops == {<<"w", p, c, "none">> : p \in 1..NP, c \in 1..NC}
 SmallOps == {o \in Ops : o[2] \in {1, 3} /\ o[3] \in {1, 2} /\ o[4] \in {"none", "lit", "var"}}
 P(o) == StrL(Paths[o[2]])
 Flag(f) == CASE f = "lit" -> BoolL(TRUE) [] f = "litfalse" -> BoolL(FALSE) [] f = "var" -> Var("yes") [] f = "varfalse" -> Var("no")
-             [] f = "cmp" -> CmpE("<", NatLit(1), NatLit(2))
+             [] f = "cmp" -> CmpE("<", NatLit(1), NatLit(2)) [] f = "keep" -> Var("keep")
 OpStmt(o) == CASE o[1] = "w" -> <<WriteS(P(o), StrL(Conts[o[3]]))>>
                [] o[1] = "a" -> <<WriteA(P(o), StrL(Conts[o[3]]), Flag(o[4]))>>
                [] o[1] = "r" -> <<IfElse(ExistsE(P(o)), <<PrintS(<<StrL("["), ReadE(P(o)), StrL("]")>>)>>, <<Print1(StrL("absent"))>>)>>
                [] o[1] = "e" -> <<Print1(ExistsE(P(o)))>>
+               [] o[1] = "t" -> <<Asg1("keep", Not(Var("keep")))>>            \* the flag variable changes its value between two writes
 OpName(o) == o[1] \o ToString(o[2]) \o ToString(o[3]) \o o[4]
-Pre == <<Def1("yes", BoolL(TRUE)), Def1("no", BoolL(FALSE))>>
+Pre == <<Def1("yes", BoolL(TRUE)), Def1("no", BoolL(FALSE)), Def1("keep", BoolL(TRUE))>>
 Final == <<PrintS(<<ExistsE(StrL("a.txt")), ExistsE(StrL("b.txt")), ExistsE(StrL("my file.txt")), ExistsE(StrL("sub/c.txt")), ExistsE(StrL("sub")), ExistsE(StrL("nope"))>>)>>
 World == [fs |-> <<[path |-> "sub/keep", content |-> "k\n"]>>, stdin |-> <<>>]
 Body(ctx, ss) == IF ctx = "top" THEN Pre \o ss \o Final
@@ -34,6 +35,10 @@ H1 == {Mk("C17/h1/" \o ctx \o "/" \o OpName(o), ctx, OpStmt(o)) : o \in Ops, ctx
 H2 == {Mk("C17/h2/" \o ctx \o "/" \o OpName(o1) \o "-" \o OpName(o2), ctx, OpStmt(o1) \o OpStmt(o2)) : o1 \in Ops, o2 \in Ops, ctx \in {"top"}}
 H3 == {Mk("C17/h3/" \o ctx \o "/" \o OpName(o1) \o "-" \o OpName(o2) \o "-" \o OpName(o3), ctx, OpStmt(o1) \o OpStmt(o2) \o OpStmt(o3))
        : o1 \in SmallOps, o2 \in SmallOps, o3 \in SmallOps, ctx \in (IF Quick THEN {"func"} ELSE {"top", "func"})}
+\* the same flag expression with a value that changes: all histories of length 4 over write / append-if-keep / toggle keep / read on one path
+KeepOps == {<<"w", 1, 1, "none">>, <<"a", 1, 2, "keep">>, <<"a", 1, 1, "keep">>, <<"t", 1, 1, "none">>, <<"r", 1, 1, "none">>}
+H4 == {Mk("C17/h4/" \o ctx \o "/" \o OpName(o1) \o "-" \o OpName(o2) \o "-" \o OpName(o3) \o "-" \o OpName(o4), ctx, OpStmt(o1) \o OpStmt(o2) \o OpStmt(o3) \o OpStmt(o4) \o OpStmt(<<"r", 1, 1, "none">>))
+       : o1 \in KeepOps, o2 \in KeepOps, o3 \in KeepOps, o4 \in KeepOps, ctx \in (IF Quick THEN {"top"} ELSE {"top", "func"})}
 \* further shapes: the flag as a parameter, writes in a loop, path and content held in variables / computed
 Extra ==
   {Mk("C17/x/paramflag", "func", <<WriteS(StrL("a.txt"), StrL("first")), WriteA(StrL("a.txt"), StrL("second"), Var("flag")), WriteA(StrL("a.txt"), StrL("third"), Not(Var("flag"))), Print1(ReadE(StrL("a.txt")))>>),
@@ -42,5 +47,5 @@ Extra ==
    Mk("C17/x/computedpath", "top", <<Def1("n", NatLit(7)), WriteS(Bin("+", Bin("+", StrL("f"), Itoa(Var("n"))), StrL(".txt")), StrL("seven")), Print1(ReadE(StrL("f7.txt")))>>),
    Mk("C17/x/readwritten", "top", <<WriteS(StrL("a.txt"), StrL("v1")), Def1("r", ReadE(StrL("a.txt"))), WriteS(StrL("b.txt"), Bin("+", Var("r"), StrL("+"))), WriteS(StrL("a.txt"), StrL("v2")), PrintS(<<Var("r"), ReadE(StrL("a.txt")), ReadE(StrL("b.txt"))>>)>>),
    Mk("C17/x/multiline", "top", <<WriteS(StrL("a.txt"), StrL("l1")), WriteA(StrL("a.txt"), StrL("l2"), Var("yes")), WriteA(StrL("a.txt"), StrL("l3"), BoolL(TRUE)), Def1("r", ReadE(StrL("a.txt"))), PrintS(<<LenE(Var("r")), Var("r")>>)>>)}
-ASSUME ndJsonSerialize("fam.ndjson", SetToSeq(H1 \cup H2 \cup H3 \cup Extra))
+ASSUME ndJsonSerialize("fam.ndjson", SetToSeq(H1 \cup H2 \cup H3 \cup H4 \cup Extra))
 =============================================================================
